@@ -205,4 +205,37 @@ theorem splitExact_of_ints {x1 x2 : List Value} (h1 : ∀ v ∈ x1, ∃ i, v = .
     SplitExact x1 x2 :=
   ⟨realSplitExact_of_ints h1 h2, fun _ _ hs1 hs2 => realSplitExact_of_ints (squaresOf_ints h1 hs1) (squaresOf_ints h2 hs2)⟩
 
+/-! ### line order, at the level of the executed batch run -/
+
+theorem envsOf_perm (t : TableInfo) {l1 l2 : List FileLine} (h : l1.Perm l2) : (envsOf t l1).Perm (envsOf t l2) := by
+  unfold envsOf
+  exact (h.filter _).map _
+
+/-- **the executed batch run ignores line order**: for an aggregate statement without join, two files whose lines are
+permutations of each other, `runBatch` prints the same and counts the same — whenever the specification answers for the
+first with an empty deviation class, `PermSafe` holds for its admitted rows, and the second is outside D10/D15 as well -/
+theorem runBatch_perm_invariant {O : Oracles} {qy : Query} {q : AggStmt} (hq : qy.stmt = .aggregate q) (hwf : StmtWF q)
+    (hj : qy.join = none) (joined : List FileLine) {l1 l2 : List FileLine} (hp : l1.Perm l2)
+    (hsafe : ∀ keyed, keyedRows O q (envsOf qy.table l1) = some keyed → PermSafe O q keyed)
+    {ro : RunOut} (h1 : Spec.Agg.batch O qy q joined [l1] = some (ro, ""))
+    (hc2 : deviationClass O q (envsOf qy.table l2) = "") :
+    runBatch O qy joined [l1] none = runBatch O qy joined [l2] none := by
+  have h2 : Spec.Agg.batch O qy q joined [l2] = some (ro, "") := by
+    unfold Spec.Agg.batch at h1 ⊢
+    simp only [hj, List.flatten_cons, List.flatten_nil, List.append_nil] at h1 ⊢
+    have hany : l2.any (fun fl => !fl.readable) = l1.any (fun fl => !fl.readable) := hp.symm.any_eq
+    rw [hany]
+    split at h1
+    · simp at h1
+    · rename_i hr
+      simp only [hr, if_false, Bool.false_eq_true]
+      unfold Spec.Agg.batchOver at h1 ⊢
+      rw [← table_perm (envsOf_perm qy.table hp) hsafe, ← hp.length_eq]
+      cases ht : table O q (envsOf qy.table l1) with
+      | none => simp [ht] at h1
+      | some t =>
+        simp only [ht, Option.some.injEq, Prod.mk.injEq] at h1 ⊢
+        exact ⟨h1.1, hc2⟩
+  rw [batch_refines_spec_nojoin hq hwf hj joined [l1] h1, batch_refines_spec_nojoin hq hwf hj joined [l2] h2]
+
 end Sqlgrep
